@@ -40,7 +40,12 @@ int main(int argc, char** argv) {
     prefixes.push_back(std::string(8, (char)255)); prefixes.push_back(prefixes[0] + rnd_bytes(8)); prefixes.push_back(prefixes[0] + std::string(8, (char)255));
     for (long i = 0; i < pool; i++) {
         std::string k;
-        if (mode == "linksonly") {   // upper borders hold next-layer links only; short keys exist in the pool but are inserted by phantom probes only
+        if (mode == "deep" && i == 0) prefixes[0][0] = (char)255;   // the deep layers hold the greatest keys (right-to-left scans end there)
+        if (mode == "deep") {        // next layers that are trees of their own: tens of keys under one 8-byte and one 16-byte prefix
+            int w = rng() % 10; k = w < 5 ? prefixes[0] : w < 8 ? prefixes[0] + prefixes[1] : w < 9 ? prefixes[2] : std::string();
+            k += rnd_bytes(w < 9 ? 1 + rng() % 2 : rng() % (maxlen + 1));
+        }
+        else if (mode == "linksonly") {   // upper borders hold next-layer links only; short keys exist in the pool but are inserted by phantom probes only
             if (i % 10 < 3) { k = rnd_bytes(rng() % 9); probe_only.insert(k); }
             else { k = prefixes[rng() % 3]; if (rng() % 4 == 0) k += prefixes[rng() % 2]; k += rnd_bytes(1 + rng() % (maxlen > 0 ? maxlen : 1)); }
         }
@@ -137,7 +142,7 @@ int main(int argc, char** argv) {
             o += "}"; puts(o.c_str()); continue;
         }
         if (x < (acc += pscan)) {
-            std::string lk = endkey(), rk = endkey(); scan_endpoint le = EPS(), re = EPS(); std::size_t mx = (rng() % 3 == 0) ? 1 + rng() % 3 : 0; bool rtl = rng() % 8 == 0;
+            std::string lk = endkey(), rk = endkey(); scan_endpoint le = EPS(), re = EPS(); std::size_t mx = (rng() % 3 == 0) ? 1 + rng() % 3 : 0; bool rtl = (long)(rng() % 100) < argi("prtl", 12);
             if (rtl && rng() % 4) { re = scan_endpoint::INF; mx = 1; }
             if (le != scan_endpoint::INF && re != scan_endpoint::INF && lk > rk && rng() % 4) std::swap(lk, rk);
             std::vector<std::tuple<std::string, char*, std::size_t>> tl; std::vector<std::pair<node_version64_body, node_version64*>> nv;
